@@ -2,13 +2,13 @@ SPECIFICATION Spec
 CONSTANTS
   Hs <- L_H
   Ms <- L_M
-  Ks <- L_K
-  Bs <- L_B
-  Fs <- L_F
+  Ks <- L_K2
+  Bs <- L_B3
+  Fs <- L_F2
   Q0s <- L_Q
   V0s <- L_V
   W0s <- L_W2
-  T0s <- L_T
+  T0s <- L_T2
   Us <- L_U2
   Integs <- L_AllInt
   EDamps <- L_Bool
@@ -17,9 +17,10 @@ CONSTANTS
   Actuations <- L_True
   GroupOns <- L_True
   Acts <- L_Passive
-  MaxSteps = 2
+  MaxSteps = 1
+  MaxOff = 5
   Variant = "doc"
-  Bound = 4096
+  Bound = 1024
   BoundRK = 64
 VIEW ViewNoEv
 INVARIANT TypeOK
